@@ -9,7 +9,7 @@ import GEVerif.Drive.Parse
 namespace GEVerif.Drive
 open GEVerif Sexp
 
-def strAtom (s : String) : Sexp := atom (if s.isEmpty then "-" else s)
+def strAtom (s : String) : Sexp := atom (encodeStr s)
 
 partial def valSx : Val → Sexp
   | .int i => list [atom "i", ofInt i]
@@ -26,7 +26,7 @@ partial def valSx : Val → Sexp
 partial def parseVal : Sexp → Option Val
   | list [atom "i", i] => do pure (.int (← i.asInt?))
   | list [atom "f"] => some .float
-  | list [atom "s", atom s] => some (.str (if s == "-" then "" else s))
+  | list [atom "s", atom s] => some (.str (decodeStr s))
   | list [atom "b", b] => do pure (.bool (← b.asBool?))
   | list (atom "n" :: c :: d :: e :: args) => do
       pure (.node (← c.asNat?) (d.asNat?.getD 0) (e.asNat?.getD 0) (← args.mapM parseVal))
